@@ -119,6 +119,14 @@ Definition ts_to_rfc3339 (t : Z) : outcome (list N) ts_err :=
 Definition ts_checked_add (t d : Z) : option Z := if ts_gate (t + d) then Some (t + d) else None.
 Definition ts_checked_sub (t d : Z) : option Z := if ts_gate (t - d) then Some (t - d) else None.
 
+(* a Duration that arrived through serde is (seconds, nanoseconds) of any sign: the result is the instant truncated (floored) to the second,
+   re-validated by from_unix *)
+Definition NS : Z := 1000000000.
+Definition ts_checked_add_ns (t secs nanos : Z) : option Z :=
+  let s := (t * NS + (secs * NS + nanos)) / NS in if ts_gate s then Some s else None.
+Definition ts_checked_sub_ns (t secs nanos : Z) : option Z :=
+  let s := (t * NS - (secs * NS + nanos)) / NS in if ts_gate s then Some s else None.
+
 (* Duration constructors: unit in seconds times a u32 count *)
 Definition ts_unit (u : Z) : Z :=
   if u =? 0 then 1 else if u =? 1 then 60 else if u =? 2 then 3600 else if u =? 3 then 86400 else 604800.
